@@ -5,5 +5,5 @@ d=$1; p=$2
 t=$(mktemp -d /tmp/tryseed.XXXXXX)
 rsync -a --exclude .git /repo/ $t/
 (cd $t && patch -p1 -s < $d/patch.diff) || { echo "PATCH DOES NOT APPLY"; rm -rf $t; exit 2; }
-/verif/bin/mdscheck -prop $p -tier quick -repo $t -evidence none 2>&1 | grep -v "^KNOWN-FINDING" | cut -c1-400
+${MDSCHECK:-/verif/bin/mdscheck} -prop $p -tier quick -repo $t -evidence none 2>&1 | grep -v "^KNOWN-FINDING" | cut -c1-400
 rm -rf $t
